@@ -1,4 +1,4 @@
-import GrinVerif.Lemmas.ConsHeader
+import GrinVerif.Lemmas.ConsNode
 /-! # C04 — only headers obeying height, time, version, difficulty and PoW rules pass
 
 Property theorems about the model `GV.Cons` (`Model/Cons.lean`) of `consensus.rs`,
@@ -611,6 +611,128 @@ theorem untrusted_header_future_rejected (ct : ChainType) (now : Int) (ftl : Nat
   unfold untrustedHeaderCheck
   rw [if_pos (by omega)]
 
+/-! ## header batches (`sync_block_headers` → `pipe::process_block_headers`) and known headers
+
+A header's hash covers only its proof nonces, so a header the node already knows can be sent again
+with the same proof and any other field changed: the copy has a *known hash*.  The batch path has
+no "already known" check; the single-header path answers `Ok` for a stored hash without validating. -/
+
+/-- the loop's executable success condition is the rules, header by header -/
+theorem batchOk_iff_rules (ct : ChainType) (skip : Bool) (b s : List FHdr) :
+    BatchOk ct skip s b ↔ BatchRules ct skip s b := by
+  induction b generalizing s with
+  | nil => simp [BatchOk, BatchRules]
+  | cons a t ih => simp only [BatchOk, BatchRules, validate_header_iff, ih]
+
+/-- **`sync_batch_sound`.**  After any batch accepted by `process_block_headers`: every header of
+the batch satisfied `HeaderRules` against its predecessor (as the batch sees the store), the body
+head and the block store are untouched, the header store is the old one extended by the batch, and
+`header_head` is either unchanged (together with the header MMR) or it is the **last** header of
+the batch, which then has strictly more total difficulty than the old `header_head`.  A rejected
+batch changes nothing (`sync_batch_rejected_unchanged`). -/
+theorem sync_batch_sound (n : HNode) (skip : Bool) (sh : Tip) (batch : List FHdr) (n' : HNode)
+    (r : Bool) (h : processBlockHeaders n skip sh batch = .ok (n', r)) :
+    BatchRules n.ct skip n.hdrs batch ∧ n'.head = n.head ∧ n'.blocks = n.blocks ∧ n'.ct = n.ct ∧
+    (batch = [] ∨ n'.hdrs = batch.reverse ++ n.hdrs) ∧
+    ((n'.headerHead = n.headerHead ∧ n'.hmmr = n.hmmr) ∨
+      ∃ last, batch.getLast? = some last ∧ n'.headerHead = Tip.ofHdr last ∧
+        n.headerHead.totalDiff < last.h.totalDiff) := by
+  unfold processBlockHeaders at h
+  split at h
+  · rename_i hl
+    cases h
+    have : batch = [] := by simpa using hl
+    subst this
+    exact ⟨trivial, rfl, rfl, rfl, .inl rfl, .inl ⟨rfl, rfl⟩⟩
+  rename_i last hl
+  split at h
+  · cases h
+  rename_i s hs
+  obtain ⟨hok, hs'⟩ := (validateLoop_ok_iff batch n.hdrs s).mp hs
+  have hrules := (batchOk_iff_rules n.ct skip batch n.hdrs).mp hok
+  split at h
+  · cases h
+  split at h
+  · cases h
+  split at h
+  · cases h
+  dsimp only at h
+  split at h
+  · rename_i hmore
+    cases h
+    exact ⟨hrules, rfl, rfl, rfl, .inr hs', .inr ⟨last, hl, rfl, hmore⟩⟩
+  · cases h
+    exact ⟨hrules, rfl, rfl, rfl, .inr hs', .inl ⟨rfl, rfl⟩⟩
+
+/-- a batch that is refused leaves the node exactly as it was (the batch is dropped) -/
+theorem sync_batch_rejected_unchanged (n : HNode) (skip : Bool) (sh : Tip) (batch : List FHdr)
+    (e : NErr) (h : processBlockHeaders n skip sh batch = .error e) :
+    syncStep n skip sh batch = n := by
+  simp [syncStep, h]
+
+/-- `header_head` after a batch, whatever its outcome: unchanged, or the last header of the
+batch with more work, all of whose headers obeyed the rules -/
+theorem sync_step_head (n : HNode) (skip : Bool) (sh : Tip) (batch : List FHdr) :
+    (syncStep n skip sh batch).headerHead = n.headerHead ∨
+    ∃ last, batch.getLast? = some last ∧ (syncStep n skip sh batch).headerHead = Tip.ofHdr last ∧
+      n.headerHead.totalDiff < last.h.totalDiff ∧ BatchRules n.ct skip n.hdrs batch := by
+  unfold syncStep
+  split
+  · rename_i n' r h
+    obtain ⟨hr, _, _, _, _, hh⟩ := sync_batch_sound n skip sh batch n' r h
+    rcases hh with hh | ⟨last, h1, h2, h3⟩
+    · exact .inl hh.1
+    · exact .inr ⟨last, h1, h2, h3, hr⟩
+  · exact .inl rfl
+
+/-- **The header-MMR root on the batch path.**  If a batch is accepted, its last header is the
+genesis, or already on the current header chain, or its `prev_root` was compared with the root of
+the header MMR rewound to its parent (`rewind_and_apply_header_fork` → `validate_root`); the same
+holds for every stored header re-applied on the way. -/
+theorem sync_batch_roots (n : HNode) (skip : Bool) (sh : Tip) (batch : List FHdr) (n' : HNode)
+    (r : Bool) (last : FHdr) (hl : batch.getLast? = some last)
+    (h : processBlockHeaders n skip sh batch = .ok (n', r)) :
+    ∃ e0, extInit n'.hdrs n.hmmr = some e0 ∧
+      (last.h.height = 0 ∨ e0.onChain n'.hdrs last.hash last.h.height = some true ∨
+        last.rootOk = true) := by
+  have hne : batch ≠ [] := by intro hb; subst hb; cases hl
+  obtain ⟨_, _, _, _, hstore, _⟩ := sync_batch_sound n skip sh batch n' r h
+  have hstore := hstore.resolve_left hne
+  unfold processBlockHeaders at h
+  rw [hl] at h
+  dsimp only at h
+  split at h
+  · cases h
+  rename_i s hs
+  obtain ⟨_, hs'⟩ := (validateLoop_ok_iff batch n.hdrs s).mp hs
+  have hsn : n'.hdrs = s := by rw [hstore, hs']
+  split at h
+  · cases h
+  rename_i e0 he0
+  refine ⟨e0, by rw [hsn]; exact he0, ?_⟩
+  split at h
+  · cases h
+  rename_i e1 hra
+  unfold rewindAndApplyHeaderFork at hra
+  split at hra
+  · cases hra
+  rename_i forked fork hfw
+  rcases forkWalk_start _ _ _ _ hfw with h0 | hon | hmem
+  · exact .inl h0
+  · exact .inr (.inl (by rw [hsn]; exact hon))
+  · obtain ⟨f, hf, hroot⟩ := reapply_roots fork _ _ hra _ hmem
+    -- the newest binding of the last header's hash is the last header itself
+    have hlast : getHdr s last.hash = some last := by
+      rw [hs']
+      obtain ⟨pre, hpre⟩ := List.getLast?_eq_some_iff.mp hl
+      rw [hpre, List.reverse_append]
+      exact getHdr_cons_self last _
+    rw [hlast] at hf
+    cases hf
+    rcases hroot with h0 | hr
+    · exact .inl h0
+    · exact .inr (.inr hr)
+
 /-! ## non-vacuity: a concrete accepted header and single-field mutations of it -/
 
 /-- parent at height 1 on the AutomatedTesting chain, its difficulty window, a context -/
@@ -633,6 +755,269 @@ example : validateHeader exCtx { exHdr with totalDiff := 7 } = .error .WrongTota
 example : validateHeader exCtx { exHdr with totalDiff := 5 } = .error .WrongTotalDifficulty := by decide +kernel
 example : validateHeader exCtx { exHdr with secondaryScaling := 20 } = .error .InvalidScaling := by decide +kernel
 example : validateHeader { exCtx with prev := none } exHdr = .error .Orphan := by decide +kernel
+
+/- **`known_hash_cannot_move_head` — full statement, FALSE for the code as it is** (only under
+the test option `Options::SKIP_POW`; see `known_hash_moves_head_under_skip_pow` for the
+kernel-checked counter-example, which the harness reproduces on the real `Chain`):
+
+    theorem known_hash_cannot_move_head (n : HNode) (skip : Bool) (sh : Tip) (pre : List FHdr)
+        (k' k : FHdr) (hstored : getHdr n.hdrs k'.hash = some k) (hdiff : ¬ SameContent k' k) :
+        (syncStep n skip sh (pre ++ [k'])).headerHead.totalDiff = n.headerHead.totalDiff
+
+`process_block_headers` has no "already known" check and `add_block_header` is keyed by a hash
+that covers the proof nonces only; what keeps a re-sent known header with changed fields out is
+solely the cycle verifier (the proof is bound to the pre-PoW bytes, which contain every other
+field).  Missing for the full statement: nothing in the header pipeline itself compares a header
+with the stored header of the same hash.  Proved below: the statement **without `SKIP_POW`**
+under the binding property of the verifier (property C05: a proof verifies for one pre-PoW
+content; `hk`: the stored copy is the one that verified). -/
+
+/-- **`known_hash_cannot_move_head` (real PoW).**  A batch — any honest or dishonest prefix `pre`,
+known or new — whose last header `k'` has a hash that is already stored with different fields is
+refused as a whole: `header_head` (hash, height and total difficulty), `head`, the header MMR and
+the stored header for that hash are exactly what they were. -/
+theorem known_hash_cannot_move_head_partial (n : HNode) (sh : Tip) (pre : List FHdr) (k' k : FHdr)
+    (hstored : getHdr n.hdrs k'.hash = some k) (hdiff : ¬ SameContent k' k)
+    (hk : k.powOk = true) (hbind : k.powOk = true → k'.powOk = true → SameContent k' k) :
+    (∃ e, processBlockHeaders n false sh (pre ++ [k']) = .error e) ∧
+    syncStep n false sh (pre ++ [k']) = n ∧
+    (syncStep n false sh (pre ++ [k'])).headerHead.totalDiff = n.headerHead.totalDiff ∧
+    getHdr (syncStep n false sh (pre ++ [k'])).hdrs k'.hash = some k := by
+  have hp : k'.powOk = false := by
+    cases hp : k'.powOk with
+    | false => rfl
+    | true => exact absurd (hbind hk hp) hdiff
+  obtain ⟨e, he⟩ := validateLoop_error_of (ct := n.ct) (skip := false) pre k' [] n.hdrs
+    (fun s' => validateHeader_badpow n.ct s' k' hp)
+  have herr : processBlockHeaders n false sh (pre ++ [k']) = .error (.hdr e) := by
+    simp [processBlockHeaders, he]
+  have hstep := sync_batch_rejected_unchanged n false sh _ _ herr
+  exact ⟨⟨_, herr⟩, hstep, by rw [hstep], by rw [hstep]; exact hstored⟩
+
+/-- the single-header path (`process_block_header`) may answer `Ok` for such a copy ("already
+known") but never takes it for something new: the node is unchanged -/
+theorem known_hash_header_path_unchanged (n : HNode) (k' : FHdr) (hp : k'.powOk = false) (n' : HNode)
+    (h : nodeProcessBlockHeader n false k' = .ok n') : n' = n := by
+  have happ : ∀ prev, pbhApply n false k' prev ≠ .ok n' := by
+    intro prev hc
+    unfold pbhApply at hc
+    obtain ⟨e, he⟩ := validateHeader_badpow n.ct n.hdrs k' hp
+    rw [he] at hc
+    cases hc
+  unfold nodeProcessBlockHeader at h
+  split at h
+  · cases h; rfl
+  split at h
+  · cases h
+  split at h
+  · split at h
+    · exact absurd h (happ _)
+    · cases h; rfl
+  · exact absurd h (happ _)
+
+/-- the block path (`process_block`) refuses it and leaves the node unchanged -/
+theorem known_hash_block_path_rejected (n : HNode) (k' : FHdr) (bodyOk : Bool)
+    (hp : k'.powOk = false) :
+    (nodeProcessBlock n false k' bodyOk).1 = n ∧
+    ∃ e, (nodeProcessBlock n false k' bodyOk).2 = .error e := by
+  unfold nodeProcessBlock
+  split
+  · exact ⟨rfl, _, rfl⟩
+  rename_i n1 h1
+  have := known_hash_header_path_unchanged n k' hp n1 h1
+  subst this
+  split
+  · exact ⟨rfl, _, rfl⟩
+  split
+  · exact ⟨rfl, _, rfl⟩
+  split
+  · exact ⟨rfl, _, rfl⟩
+  split
+  · exact ⟨rfl, _, rfl⟩
+  split
+  · exact ⟨rfl, _, rfl⟩
+  simp [hp]
+
+/-- **`process_block_header` at node level.**  An `Ok` either changed nothing (the "already known"
+short-cuts) or stored a header that obeys every rule against its stored parent and whose
+`prev_root` matched the header MMR rewound to that parent; `header_head` is then unchanged or
+this header, with more work. -/
+theorem node_process_block_header_sound (n : HNode) (skip : Bool) (f : FHdr) (n' : HNode)
+    (h : nodeProcessBlockHeader n skip f = .ok n') :
+    n' = n ∨ (HeaderRules (ctxFor n.ct skip n.hdrs f) f.h ∧ (f.h.height = 0 ∨ f.rootOk = true) ∧
+      n'.hdrs = f :: n.hdrs ∧ n'.head = n.head ∧ n'.blocks = n.blocks ∧
+      (n'.headerHead = n.headerHead ∨
+        (n'.headerHead = Tip.ofHdr f ∧ n.headerHead.totalDiff < f.h.totalDiff))) := by
+  have happ : ∀ prev, pbhApply n skip f prev = .ok n' →
+      (HeaderRules (ctxFor n.ct skip n.hdrs f) f.h ∧ (f.h.height = 0 ∨ f.rootOk = true) ∧
+      n'.hdrs = f :: n.hdrs ∧ n'.head = n.head ∧ n'.blocks = n.blocks ∧
+      (n'.headerHead = n.headerHead ∨
+        (n'.headerHead = Tip.ofHdr f ∧ n.headerHead.totalDiff < f.h.totalDiff))) := by
+    intro prev h
+    unfold pbhApply at h
+    split at h
+    · cases h
+    rename_i hv
+    have hrules := (validate_header_iff _ _).mp hv
+    split at h
+    · cases h
+    split at h
+    · cases h
+    split at h
+    · cases h
+    rename_i e2 hva
+    have hroot : f.h.height = 0 ∨ f.rootOk = true := by
+      unfold HExt.validateApply at hva
+      split at hva
+      · cases hva
+      · rename_i hc
+        by_cases h0 : f.h.height = 0
+        · exact .inl h0
+        · right
+          cases hr : f.rootOk
+          · exact absurd ⟨h0, hr⟩ hc
+          · rfl
+    split at h
+    · rename_i hmore
+      cases h
+      exact ⟨hrules, hroot, rfl, rfl, rfl, .inr ⟨rfl, hmore⟩⟩
+    · cases h
+      exact ⟨hrules, hroot, rfl, rfl, rfl, .inl rfl⟩
+  unfold nodeProcessBlockHeader at h
+  split at h
+  · cases h; exact .inl rfl
+  split at h
+  · cases h
+  split at h
+  · split at h
+    · exact .inr (happ _ h)
+    · cases h; exact .inl rfl
+  · exact .inr (happ _ h)
+
+/-! ### non-vacuity: a node, an honest batch, a mutated copy of a known header -/
+
+/-- a three-header chain on AutomatedTesting as deliveries: genesis (hash 100), `exP` (hash 101,
+height 1, network difficulty 3, scaling 19) and `exX` (hash 102, height 2) -/
+def exG : FHdr := ⟨100, 0, ⟨0, 1000, 1, 1, 20, 10, 777, 1, 1⟩, 1, true, true⟩
+def exP : FHdr := ⟨101, 100, ⟨1, 1060, 1, 4, 19, 10, 2^60, 3, 3⟩, 2, true, true⟩
+def exX : FHdr := ⟨102, 101, ⟨2, 1120, 1, 7, 19, 10, 2^60, 4, 4⟩, 3, true, true⟩
+/-- a node that knows genesis and `exP` (header and block) -/
+def exNode : HNode :=
+  { ct := .automatedTesting, hdrs := [exP, exG], blocks := [101, 100], head := Tip.ofHdr exP,
+    headerHead := Tip.ofHdr exP, hmmr := [100, 101] }
+/-- `exP` again — same proof, same hash — claiming total difficulty 50: the cycle verifier
+refuses it (`powOk = false`) since the pre-PoW bytes changed -/
+def exP' : FHdr := ⟨101, 100, { exP.h with totalDiff := 50 }, 9, false, true⟩
+
+/-- the store yields parent and difficulty window, and both honest headers obey every rule -/
+example : (ctxFor .automatedTesting false exNode.hdrs exX).window =
+      [⟨1060, 3, 19, false⟩, ⟨1000, 1, 20, false⟩] ∧
+    (ctxFor .automatedTesting false exNode.hdrs exX).prev = some exP.h := by decide +kernel
+example : BatchRules .automatedTesting false [exG] [exP, exX] :=
+  (batchOk_iff_rules _ _ _ _).mp (by simp only [BatchOk]; decide +kernel)
+/-- an honest batch moves `header_head` to its last header (hypotheses of `sync_batch_sound`) -/
+example : (syncStep exNode false exNode.headerHead [exX]).headerHead = Tip.ofHdr exX := by
+  decide +kernel
+/-- re-sending the unmodified known header is accepted and harmless -/
+example : errOf (processBlockHeaders exNode false exNode.headerHead [exP]) = none := by decide +kernel
+example : (syncStep exNode false exNode.headerHead [exP]).headerHead = exNode.headerHead ∧
+    getHdr (syncStep exNode false exNode.headerHead [exP]).hdrs 101 = some exP := by decide +kernel
+/-- the mutated copy of the known header: alone, after a known header, after a new honest header
+(hypotheses of `known_hash_cannot_move_head_partial`) -/
+example : getHdr exNode.hdrs exP'.hash = some exP ∧ exP.powOk = true ∧ exP'.powOk = false := by
+  decide +kernel
+example : errOf (processBlockHeaders exNode false exNode.headerHead [exP']) = some (.hdr .InvalidPow) := by
+  decide +kernel
+example : errOf (processBlockHeaders exNode false exNode.headerHead [exP, exP']) = some (.hdr .InvalidPow) := by
+  decide +kernel
+example : errOf (processBlockHeaders exNode false exNode.headerHead [exX, exP']) = some (.hdr .InvalidPow) := by
+  decide +kernel
+/-- the single-header path answers `Ok` for it and changes nothing -/
+example : (nodeProcessBlockHeader exNode false exP').toOption.map (·.headerHead) =
+    some exNode.headerHead := by decide +kernel
+
+/-- **The full statement fails under `SKIP_POW`**: the mutated copy of the known `header_head`
+(same hash) is accepted by the batch path, `header_head`'s total difficulty goes from 4 to 50 and
+the stored header for that hash is replaced. -/
+theorem known_hash_moves_head_under_skip_pow :
+    getHdr exNode.hdrs exP'.hash = some exP ∧ exP'.h ≠ exP.h ∧
+    exNode.headerHead.totalDiff = 4 ∧
+    (syncStep exNode true exNode.headerHead [exP']).headerHead.totalDiff = 50 ∧
+    (syncStep exNode true exNode.headerHead [exP']).headerHead.hash = exNode.headerHead.hash ∧
+    getHdr (syncStep exNode true exNode.headerHead [exP']).hdrs 101 = some exP' := by
+  decide +kernel
+
+/-! ## the future-time limit under thread-local configuration (`core/src/global.rs`)
+
+"From the network, not beyond the future-time limit": `UntrustedBlockHeader::read` asks
+`global::get_future_time_limit()`.  Chain type, accept-fee base, future time limit and NRD flag
+each live in a thread-local cell with a process-wide value behind it; a getter returns
+`local ?? global ?? default` and caches what it resolved — in its **own** cell. -/
+
+/-- every getter returns `local ?? global ?? default` (`none`: `get_chain_type` panics) -/
+theorem lookup_resolves (s : PStore) (p : Param) : (s.get p).1 = s.resolve p := get_fst s p
+
+/-- a getter writes at most its own parameter's thread-local cell -/
+theorem lookup_writes_own_cell_only (s : PStore) (p q : Param) (hpq : p ≠ q) :
+    (s.get q).2.loc p = s.loc p ∧ (s.get q).2.glob = s.glob := by
+  refine ⟨?_, get_glob s q⟩
+  cases q <;>
+    simp only [PStore.get, getChainType, getAcceptFeeBase, getFutureTimeLimit, isNrdEnabled] <;>
+    (split <;> try rfl) <;> (try split) <;> (try rfl) <;>
+    simp [PStore.setLocal, hpq]
+
+/-- **`lookup_independent`.**  A lookup of `q` never changes the result of a later lookup of
+`p ≠ q` … -/
+theorem lookup_independent (s : PStore) (p q : Param) (_hpq : p ≠ q) :
+    ((s.get q).2.get p).1 = (s.get p).1 := by
+  rw [get_fst, get_fst, resolve_get]
+
+/-- … nor of `p` itself: looking a parameter up twice gives the same value -/
+theorem lookup_stable (s : PStore) (p : Param) : ((s.get p).2.get p).1 = (s.get p).1 := by
+  rw [get_fst, get_fst, resolve_get]
+
+/-- Whatever a thread did before — lookups of any parameter (directly, through
+`max_block_weight`, `coinbase_maturity`, `Transaction::accept_fee`, or by decoding headers) and
+set / init of *other* parameters — the lookup of `p` answers as it would have at the start. -/
+theorem lookup_independent_of_history (s : PStore) (ops : List POp) (p : Param)
+    (hw : ∀ op ∈ ops, op.writes ≠ some p) : ((s.run ops).get p).1 = (s.get p).1 := by
+  rw [get_fst, get_fst, resolve_run ops s p hw]
+
+/-- **The network verdict depends only on (timestamp, now, ftl, chain type).**  Decoding a header
+after any history that did not set the future time limit or the chain type gives the verdict it
+would have given at the start: `untrustedHeaderCheck` under `ftl = local ?? global ?? default`. -/
+theorem future_limit_verdict_independent (s : PStore) (ops : List POp) (now : Int) (ok : Bool)
+    (h : Hdr) (hw : ∀ op ∈ ops, op.writes ≠ some .ftl ∧ op.writes ≠ some .chainType) :
+    (untrustedHeaderRead (s.run ops) now ok h).1 = (untrustedHeaderRead s now ok h).1 := by
+  rw [untrustedHeaderRead_fst, untrustedHeaderRead_fst,
+    resolve_run ops s .ftl (fun op ho => (hw op ho).1),
+    resolve_run ops s .chainType (fun op ho => (hw op ho).2)]
+
+/-- On a thread without a local future time limit and with no global one the limit is the
+default (300 s), whatever was looked up before; a header dated beyond `now + 300` is refused. -/
+theorem future_limit_default_rejects (s : PStore) (ops : List POp) (now : Int) (ok : Bool) (h : Hdr)
+    (c : Nat) (hc : s.resolve .chainType = some c)
+    (hl : s.loc .ftl = none) (hg : s.glob .ftl = none)
+    (hw : ∀ op ∈ ops, op.writes ≠ some .ftl ∧ op.writes ≠ some .chainType)
+    (hf : now + DEFAULT_FUTURE_TIME_LIMIT < h.ts) :
+    (untrustedHeaderRead (s.run ops) now ok h).1 = some (.error .CorruptedData) := by
+  rw [future_limit_verdict_independent s ops now ok h hw, untrustedHeaderRead_fst, hc]
+  have : s.resolve .ftl = some DEFAULT_FUTURE_TIME_LIMIT := by
+    simp [PStore.resolve, hl, hg, pDefault]
+  rw [this]
+  simp only
+  rw [untrusted_header_future_rejected _ _ _ _ _ hf]
+
+/-- non-vacuity: a fresh thread that set only its chain type, after looking up the fee base,
+the NRD flag and the block weight, refuses a header dated now+301 s and lets now+300 s pass the
+time check (it is then refused for its version, not its time) -/
+example : ((((PStore.empty.setLocal .chainType 2).run
+    [.get .feeBase, .acceptFee 25, .get .nrd, .maxBlockWeight, .coinbaseMaturity]).get .ftl).1 = some 300) := by
+  decide +kernel
+example : (untrustedHeaderRead ((PStore.empty.setLocal .chainType 2).run [.get .feeBase, .maxBlockWeight])
+    1000 true { exHdr with ts := 1301 }).1 = some (.error .CorruptedData) := by decide +kernel
+example : (untrustedHeaderRead ((PStore.empty.setLocal .chainType 2).run [.get .feeBase, .maxBlockWeight])
+    1000 true { exHdr with ts := 1300 }).1 = some (.ok ()) := by decide +kernel
 
 /-! ## the chain always supplies a window on which the retarget is total -/
 
